@@ -229,6 +229,20 @@ theorem locked_list_untouched_by_other_threads (lists : List (List Nat)) (progs 
   have f := run_facts facts_guarded sched _ _ (inv_init lists progs) hrun
   exact step_frame facts_guarded f.inv hstep l t (Ne.symm hne) hown
 
+/-- … and so do any number of such steps: however long a walk under the lock
+    takes and however the other threads are scheduled meanwhile (`others`: any
+    schedule that does not contain `t`), the list `t` has locked keeps its
+    buffer — the element-level interleavings the harness runs with probe
+    elements cannot change what the walk sees. -/
+theorem locked_list_stable_while_others_run (lists : List (List Nat)) (progs : List (List Op))
+    (sched : List Nat) (s : State) (hrun : run RotoV.Gen.C16.facts (init lists progs) sched = some s)
+    (t l : Nat) (hown : (s.cells l).owner = some t)
+    (others : List Nat) (hoth : ∀ u ∈ others, u ≠ t)
+    (s' : State) (hrun' : run RotoV.Gen.C16.facts s others = some s') :
+    (s'.cells l).owner = some t ∧ (s'.cells l).raw = (s.cells l).raw := by
+  have f := run_facts facts_guarded sched _ _ (inv_init lists progs) hrun
+  exact run_frame facts_guarded t l others s s' f.inv hoth hown hrun'
+
 /-- **T1 `atomic_ops_linearizable`.** For every number of threads, all programs
     (all operations) and every schedule: the completed operations, *in the order
     in which they completed*, are a sequential execution of the shared-vector
@@ -382,6 +396,10 @@ example : Facts.asWritten ≠ Facts.guarded := by decide
     1 can take a step (on the other list) -/
 example : (run RotoV.Gen.C16.facts (init [[1, 2, 3, 4], [5]] [[.get 0 1], [.push 1 9]]) [0]).map
     (fun s => ((s.cells 0).owner, (step RotoV.Gen.C16.facts 1 s).isSome)) = some (some 0, true) := by decide
+/-- … `locked_list_stable_while_others_run`: thread 1 does two operations on the
+    other list while thread 0 stands inside `get` -/
+example : ((run RotoV.Gen.C16.facts (init [[1, 2, 3, 4], [5]] [[.get 0 1], [.push 1 9, .len 1]]) [0]).bind
+    (fun s => run RotoV.Gen.C16.facts s [1, 1])).isSome = true := by decide
 /-- the derived skeletons are not trivial: `concat` of two lists has three steps,
     the second of which starts while `self`'s guard is held -/
 example : (srcSkel (.concat 0 1)).length = 3 ∧ ((srcSkel (.concat 0 1))[0]?).map (·.holdsAfter) = some [.self] := by
